@@ -45,7 +45,10 @@ def build_harness():
     lock = os.path.join(mdir, "Cargo.lock")
     if not os.path.exists(lock):
         import shutil
-        shutil.copy(os.path.join(repo, "Cargo.lock"), lock)
+        src = os.path.join(repo, "Cargo.lock")       # not tracked by the repository: scratch worktrees have none
+        if not os.path.exists(src):
+            src = os.path.join(HARNESS, "Cargo.lock.in")
+        shutil.copy(src, lock)
     env = dict(os.environ, CARGO_NET_OFFLINE="true", CARGO_TARGET_DIR=target)
     r = subprocess.run(["cargo", "build", "--offline", "--quiet"], cwd=mdir, env=env,
                        capture_output=True, text=True)
